@@ -205,6 +205,12 @@ var Decorations = []string{
 	// treat the terminator as escaped: escapes exist only inside strings)
 	"/* c:\\*/",
 	"// c:\\\n",
+	// extended: the two openers overlap - comment text that starts with the other opener's second character
+	// ("//*" contains "/*" one byte in; "/*/" and "///" contain "//" or a closer-like "*/" prefix)
+	"//*c\n",
+	"///\n",
+	"/*//*/",
+	"/***/",
 }
 
 // BaseDecorations is the number of leading elements of Decorations that form
@@ -212,14 +218,14 @@ var Decorations = []string{
 const BaseDecorations = 7
 
 // DecorationNames are used in violation keys.
-var DecorationNames = []string{"none", "space", "line", "block", "line-quotes", "block-quotes-slashes", "block-empty", "block-slash-newline-stars", "line-with-block-opener", "block-ending-in-backslash", "line-ending-in-backslash"}
+var DecorationNames = []string{"none", "space", "line", "block", "line-quotes", "block-quotes-slashes", "block-empty", "block-slash-newline-stars", "line-with-block-opener", "block-ending-in-backslash", "line-ending-in-backslash", "line-starting-with-star", "line-triple-slash", "block-starting-with-slashes", "block-of-a-star"}
 
 // IsComment reports whether decoration d contains a comment.
 func IsComment(d int) bool { return d >= 2 }
 
 // Finals is the alphabet of what may follow the last boundary: nothing, or a
 // line comment that is ended by the end of input instead of a newline.
-var Finals = []string{"", "//c", "//"}
+var Finals = []string{"", "//c", "//", "//*"}
 
 // Decorate writes decos[i] before token i, decos[len(tokens)] after the last
 // token, and then final. len(decos) must be len(tokens)+1.
